@@ -313,17 +313,32 @@ def check(ck):
     helper_exists = ck.repo.try_func(RL + "._mutex_for_invocation") is not None
     if helper_exists:
         mi = FA(ck, RL + "._mutex_for_invocation")
-        r = mi.one(mi.returns(), "return")
-        okk = isinstance(r.value, ast.Subscript) and A.norm(r.value.value) == table and isinstance(r.value.slice, ast.Tuple) \
-            and [A.norm(e) for e in r.value.slice.elts] == ["fn_reference_with_args.fn_reference.qualified_name", "fn_reference_with_args.arg_hash"]
-        if not okk and not isinstance(r.value, ast.Subscript):
-            # get-or-create spelled out: the looked-up key is the pair, and the returned mutex comes out of the table
-            keys = {mi.xnorm(t.slice) for st in mi.stmts(ast.Assign) for t in st.targets if isinstance(t, ast.Subscript) and A.norm(t.value) == table}
-            keys |= {mi.xnorm(c.args[0]) for c in mi.calls() if A.call_attr(c) in ("get", "setdefault") and A.norm(A.call_recv(c)) == table and c.args}
-            okk = keys == {"(fn_reference_with_args.fn_reference.qualified_name, fn_reference_with_args.arg_hash)"} and \
-                ("global:" + table in mi.deps(r.value) or "call:get" in mi.deps(r.value) or "call:setdefault" in mi.deps(r.value))
-        ck.ob(R2, mi.key(r, "mutex-key"), okk, "one mutex per (versioned function name, argument hash)" if okk else
-              "the per-call mutex is not keyed by (qualified_name, arg_hash) of the invocation: distinct calls serialise or equal calls do not", mi.where(r))
+        ck.need(mi.fi.params, "_mutex_for_invocation takes no invocation argument")
+        inv0 = mi.fi.params[0]
+        want = [inv0 + ".fn_reference.qualified_name", inv0 + ".arg_hash"]
+        rets = mi.some([r for r in mi.returns() if r.value is not None], "return with a value")
+
+        def _key_elts(k, at):
+            """texts of the elements of a looked-up key, locals expanded"""
+            ids = mi.nodes(at)
+            k = mi.expand(k, ids[0]) if ids else k
+            return [A.norm(e) for e in k.elts] if isinstance(k, ast.Tuple) else [A.norm(k)]
+
+        for r in rets:
+            # what is returned, through any temporaries: TABLE[(qualified name, arg hash)]
+            v = mi.expand(r.value)
+            if isinstance(v, ast.Subscript) and A.norm(v.value) == table:
+                okk = [A.norm(e) for e in (v.slice.elts if isinstance(v.slice, ast.Tuple) else [v.slice])] == want
+            else:
+                # get-or-create spelled out: every key the table is looked up / filled with is the pair, and the returned mutex comes out of the table
+                keys = [_key_elts(t.slice, st) for st in mi.stmts(ast.Assign) for t in st.targets if isinstance(t, ast.Subscript) and A.norm(t.value) == table]
+                keys += [_key_elts(c.args[0], c) for c in mi.calls() if A.call_attr(c) in ("get", "setdefault") and A.norm(A.call_recv(c)) == table and c.args]
+                keys += [_key_elts(x.slice, x) for x in A.walk_body(mi.node) if isinstance(x, ast.Subscript) and isinstance(x.ctx, ast.Load) and A.norm(x.value) == table]
+                dv = mi.deps(r.value)
+                okk = bool(keys) and all(k == want for k in keys) and \
+                    ("global:" + table in dv or "call:get" in dv or "call:setdefault" in dv)
+            ck.ob(R2, mi.key(r, "mutex-key"), okk, "one mutex per (versioned function name, argument hash)" if okk else
+                  "the per-call mutex is not keyed by (qualified_name, arg_hash) of the invocation: distinct calls serialise or equal calls do not", mi.where(r))
     else:
         from .keys import _mutex_key_in_host
         _mutex_key_in_host(ck, R2)
@@ -399,7 +414,9 @@ def check(ck):
     for (fi, c, _) in ctor_sites:
         fa = FA(ck, fi)
         st = fa.stmt_of(c)
-        ok = fi.qual == "call_stack.CallStack.get" and isinstance(st, ast.Assign) and tl and all(A.dotted(t) == tl[0] + ".call_stack" for t in st.targets)
+        # the new stack is bound to an attribute of the thread-local object (named directly or through a local alias)
+        ok = fi.qual == "call_stack.CallStack.get" and isinstance(st, ast.Assign) and tl and st.value is c and \
+            all(isinstance(t, ast.Attribute) and t.attr == "call_stack" and fa.nodes(st) and fa.xnorm(t.value, fa.nodes(st)[0]) == tl[0] for t in st.targets)
         ck.ob(R5, fa.key(c, "created-into-thread-local"), bool(ok), "a new CallStack goes straight into thread-local storage" if ok else
               "a CallStack is created outside CallStack.get / not stored in thread-local storage", fa.where(c))
     shared = []
@@ -418,7 +435,7 @@ def check(ck):
           "a call stack / frame container is shared across threads: %s" % (shared[0],), shared[0][0] if shared else cs.relpath)
     g = FA(ck, "call_stack.CallStack.get")
     rets = g.returns()
-    okg = bool(rets) and tl and all(A.norm(r.value) == tl[0] + ".call_stack" for r in rets)
+    okg = bool(rets) and tl and all(r.value is not None and g.xnorm(r.value) == tl[0] + ".call_stack" for r in rets)
     ck.ob(R5, g.key(None, "get-returns-thread-local"), bool(okg), "CallStack.get returns the calling thread's stack" if okg else
           "CallStack.get does not return the thread-local stack", g.where())
     ini = FA(ck, "call_stack.CallStack.__init__")
